@@ -123,6 +123,16 @@ func Build(spec engine.CartSpec) ([]byte, error) {
 		}
 		copy(img[entry:], prog)
 	}
+	if spec.HeaderEveryPage {
+		// like a multi-game cartridge: every page starts with a cartridge header of its own (logo, title,
+		// type and size bytes); the controller's behaviour is that of the declared type all the same
+		for p := 1; p < banks; p++ {
+			base := p * 0x4000
+			copy(img[base+0x104:], nintendoLogo[:])
+			copy(img[base+0x134:base+0x150], img[0x134:0x150])
+		}
+		copy(img[0x104:], nintendoLogo[:])
+	}
 	if spec.Program2 != "" {
 		// a second program at the same window address in another page (code that switches the bank it
 		// is executing from)
@@ -135,6 +145,10 @@ func Build(spec engine.CartSpec) ([]byte, error) {
 	}
 	return img, nil
 }
+
+var nintendoLogo = [48]byte{0xce, 0xed, 0x66, 0x66, 0xcc, 0x0d, 0x00, 0x0b, 0x03, 0x73, 0x00, 0x83, 0x00, 0x0c, 0x00, 0x0d,
+	0x00, 0x08, 0x11, 0x1f, 0x88, 0x89, 0x00, 0x0e, 0xdc, 0xcc, 0x6e, 0xe6, 0xdd, 0xdd, 0xd9, 0x99,
+	0xbb, 0xbb, 0x67, 0x63, 0x6e, 0x0e, 0xec, 0xcc, 0xdd, 0xdc, 0x99, 0x9f, 0xbb, 0xb9, 0x33, 0x3e}
 
 // TypeFor returns a header cart-type byte for a controller kind.
 func TypeFor(kind string, ram bool) uint8 {
